@@ -10,10 +10,10 @@ import (
 	"encoding/hex"
 	"fmt"
 	"math/rand"
+	"os"
 	"regexp"
 	"sort"
 	"strings"
-	"sync"
 	"testing"
 	"time"
 
@@ -43,6 +43,9 @@ const (
 	// sets; the timers are only its fallback for missing peers and must not fire in this workload
 	// (every message is delivered), so they are set far beyond the watchdog.
 	pedersenPhase = 20 * time.Minute
+	// A ceremony is declared stuck only when every envelope was delivered, nothing was sent for
+	// this long AND a handler demonstrably rejected an honest message (otherwise: watchdog).
+	stuckSettle = 15 * time.Second
 )
 
 // grid returns the ceremony list of the tier.
@@ -85,7 +88,6 @@ func TestCheck(t *testing.T) {
 	r.Assume("kryptology FROST and drand/kyber pedersen draw their polynomial coefficients from crypto/rand: key material is not replayable from the seed, the schedule mode, identities and configuration are")
 	r.Assume("a ceremony that does not finish before the generous watchdog is inconclusive unless a delivered honest message was demonstrably rejected by the receiving node's handler (logical event, captured from charon's log)")
 	r.RacePkgs(false, "dkg")
-	r.Require("ceremonies_succeeded", 20)
 	r.Require("t_subsets_checked", 100)
 	r.Require("reordered_ceremonies", 10)
 
@@ -96,15 +98,31 @@ func TestCheck(t *testing.T) {
 	}
 
 	list := grid(r.Thorough())
+	// Development aid: C11_ENGINES=frost,fullrun restricts the grid to engines with these prefixes
+	// (the minimum-observation thresholds still apply, so such a run may end inconclusive).
+	if f := os.Getenv("C11_ENGINES"); f != "" {
+		var keep []ceremony
+		for _, cer := range list {
+			for _, p := range strings.Split(f, ",") {
+				if strings.HasPrefix(cer.Engine, p) {
+					keep = append(keep, cer)
+
+					break
+				}
+			}
+		}
+		list = keep
+	}
 	shuf := r.Rand(-1, 7)
 	shuf.Shuffle(len(list), func(i, j int) { list[i], list[j] = list[j], list[i] })
-	// fullrun ceremonies bind TCP ports and run relays: keep them at the front so a scaled-down
-	// run (mutant self-test) does not consist of them only — they are appended last by grid() and
-	// shuffled like the rest, which is fine.
+	// The list is shuffled so that a scaled-down run (VERIF_SCALE) still mixes engines and sizes.
 	n := r.N(len(list), len(list))
 	if n > len(list) {
 		n = len(list)
 	}
+	// at least 3/4 of the ceremonies must complete and reach the oracle (the rest can only be
+	// ceremonies discarded for wall-clock timeouts of the real code, see isRealTimeout)
+	r.Require("ceremonies_succeeded", int64(n*3/4))
 	reg := &keyRegistry{seen: map[tbls.PublicKey]string{}}
 	par := 6
 	r.Set("grid_size", len(list))
@@ -158,7 +176,7 @@ func newMembers(rng *rand.Rand, n int) (*members, error) {
 	return m, nil
 }
 
-var digits = regexp.MustCompile(`[0-9a-fA-F]{8,}|[0-9]+`)
+var digits = regexp.MustCompile(`[0-9a-fA-F]{8,}|\b[0-9]+\b`)
 
 // errClass reduces an error text to a stable class for signatures.
 func errClass(err error) string {
@@ -233,73 +251,139 @@ func runFakenetCeremony(c *kit.Case, cer ceremony, reg *keyRegistry, logs *faken
 
 	results := make([][]share.Share, n)
 	errs := make([]error, n)
-	var wg sync.WaitGroup
+	type nodeDone struct {
+		i   int
+		err error
+	}
+	doneCh := make(chan nodeDone, n)
 	for _, i := range rng.Perm(n) {
-		wg.Add(1)
 		go func() {
-			defer wg.Done()
-			results[i], errs[i] = nodeFns[i]()
+			res, err := nodeFns[i]()
+			results[i] = res // published by the channel send below
+			doneCh <- nodeDone{i, err}
 		}()
 	}
-	finished := make(chan struct{})
-	go func() { wg.Wait(); close(finished) }()
 
-	stuck := false
+	// Wait for the ceremony. Outcomes: every node returned without error (-> oracle); a node
+	// returned an error; nothing can move any more (all envelopes delivered, nothing sent) after a
+	// receiving handler rejected an honest message; the generous watchdog fired (inconclusive).
+	const (
+		outOK = iota
+		outNodeError
+		outStuckRejected
+		outTimeoutDrop
+		outWatchdog
+	)
+	outcome := outOK
+	remaining := n
+	firstFailed := -1
 	wd := time.NewTimer(ceremonyWatchdog)
-	select {
-	case <-finished:
-	case <-wd.C:
-		stuck = true
+	tick := time.NewTicker(250 * time.Millisecond)
+	lastSent, quietSince := int64(-1), time.Now()
+wait:
+	for remaining > 0 {
+		select {
+		case d := <-doneCh:
+			remaining--
+			errs[d.i] = d.err
+			if d.err != nil {
+				firstFailed, outcome = d.i, outNodeError
+
+				break wait
+			}
+		case <-tick.C:
+			if sent := sc.sent.Load(); sent != lastSent || !sc.allDelivered() {
+				lastSent, quietSince = sent, time.Now()
+
+				continue
+			}
+			if time.Since(quietSince) >= stuckSettle && len(handlerErrorsOf(logs, logStart, m)) > 0 {
+				outcome = outStuckRejected
+
+				break wait
+			}
+			if time.Since(quietSince) >= stuckSettle && droppedByTimeout(logs, logStart, m) > 0 {
+				outcome = outTimeoutDrop
+
+				break wait
+			}
+		case <-wd.C:
+			outcome = outWatchdog
+
+			break wait
+		}
 	}
 	wd.Stop()
+	tick.Stop()
 
-	if stuck {
-		// Observe the state BEFORE cancelling anything.
-		delivered := kit.WaitUntil(5*time.Second, sc.allDelivered)
+	// abort cancels the ceremony and collects the remaining node goroutines.
+	abort := func() {
+		cancel()
+		to := time.NewTimer(30 * time.Second)
+		defer to.Stop()
+		for remaining > 0 {
+			select {
+			case d := <-doneCh:
+				remaining--
+				if errs[d.i] == nil {
+					errs[d.i] = d.err
+				}
+			case <-to.C:
+				r.Count("node_goroutines_abandoned", int64(remaining))
+				remaining = 0
+			}
+		}
+		sc.shutdown()
+	}
+
+	if outcome != outOK {
+		// Observe the state BEFORE cancelling anything: let the other nodes run until nothing moves.
+		delivered := quiesce(sc, 15*time.Second)
 		st := sc.stats()
 		rejected := handlerErrorsOf(logs, logStart, m)
-		cancel()
-		<-finished
-		sc.shutdown()
-		w := map[string]any{"ceremony": cer, "schedule": st, "all_delivered": delivered, "handler_errors": rejected,
-			"node_errors_after_cancel": errStrings(errs), "deliveries": sc.orderCopy(600)}
-		if delivered && len(rejected) > 0 {
-			c.Violation("dkg/"+cer.Engine+"/ceremony-failed/stuck-after-honest-message-rejected/"+rejected[0].Class,
-				fmt.Sprintf("%s: all %d envelopes were delivered, a receiving handler rejected an honest message (%s) and the ceremony never completed", cer, st.Sent, rejected[0].Err), w)
-		} else {
-			r.Inconclusive("case %d (%s, %s): ceremony did not finish within %s (all delivered=%v, sent=%d delivered=%d)", c.Idx, cer, st.Mode, ceremonyWatchdog, delivered, st.Sent, st.Delivered)
+		var firstErr error
+		if firstFailed >= 0 {
+			firstErr = errs[firstFailed]
 		}
-		r.Count("ceremonies_stuck", 1)
+		abort()
+		w := map[string]any{"ceremony": cer, "schedule": st, "all_delivered": delivered, "handler_errors": rejected,
+			"first_failed_node": firstFailed, "node_errors_after_cancel": errStrings(errs), "deliveries": sc.orderCopy(600)}
+		switch {
+		case outcome == outNodeError && isRealTimeout(firstErr) && len(rejected) == 0:
+			// The real code bounds its stream reads by wall-clock timeouts (p2p.SendReceive: 5 s).
+			// On a loaded machine the harness-held envelope or the peer's answer can exceed them; a
+			// forkjoin sibling then reports "context canceled". No handler rejected anything: this is
+			// a ceremony that timed out, not a completed one - outside the property, discarded.
+			r.Count("ceremonies_discarded_real_timeout", 1)
+			r.Seen("discarded_timeout_errors", errClass(firstErr))
+			r.Seen("discarded_ceremonies", fmt.Sprintf("%s/%s/held-cap-releases=%d", cer, st.Mode, st.AgedOut))
+		case (outcome == outTimeoutDrop || outcome == outWatchdog) && len(rejected) == 0 && droppedByTimeout(logs, logStart, m) > 0:
+			// A pedersen board handler gave up handing a bundle to the protocol goroutine after its
+			// 5 s receive timeout ("Dropping ... context done"): wall-clock loss, not a reordering.
+			r.Count("ceremonies_discarded_real_timeout", 1)
+			r.Seen("discarded_timeout_errors", "board-handler-dropped-bundle-after-receive-timeout")
+			r.Seen("discarded_ceremonies", fmt.Sprintf("%s/%s/held-cap-releases=%d", cer, st.Mode, st.AgedOut))
+		case outcome == outNodeError && delivered:
+			r.Count("ceremonies_failed", 1)
+			c.Violation("dkg/"+cer.Engine+"/ceremony-failed/"+errClass(firstErr),
+				fmt.Sprintf("%s: node %d returned an error although all %d envelopes sent were delivered (only reordered): %v", cer, firstFailed, st.Sent, strings.TrimSpace(fmt.Sprint(firstErr))), w)
+		case outcome == outStuckRejected && delivered:
+			r.Count("ceremonies_stuck", 1)
+			c.Violation("dkg/"+cer.Engine+"/ceremony-failed/stuck-after-honest-message-rejected/"+rejected[0].Class,
+				fmt.Sprintf("%s: all %d envelopes were delivered, a receiving handler rejected an honest message (%s), nothing is in flight and no node can complete", cer, st.Sent, rejected[0].Err), w)
+		default:
+			r.Count("ceremonies_stuck", 1)
+			r.Inconclusive("case %d (%s, %s): ceremony did not complete (outcome %d, first error %v, all delivered=%v, sent=%d delivered=%d, handler rejections=%d)",
+				c.Idx, cer, st.Mode, outcome, firstErr, delivered, st.Sent, st.Delivered, len(rejected))
+		}
 
 		return
 	}
 
-	// All nodes returned. Let outstanding deliveries drain for the bookkeeping, then stop.
+	// All nodes returned without error. Let outstanding deliveries drain for the bookkeeping, then stop.
 	delivered := kit.WaitUntil(10*time.Second, sc.allDelivered)
 	st := sc.stats()
 	hash := sc.orderHash()
-	var failed []int
-	for i, e := range errs {
-		if e != nil {
-			failed = append(failed, i)
-		}
-	}
-	if len(failed) > 0 {
-		rejected := handlerErrorsOf(logs, logStart, m)
-		cancel()
-		sc.shutdown()
-		r.Count("ceremonies_failed", 1)
-		w := map[string]any{"ceremony": cer, "schedule": st, "all_delivered": delivered, "handler_errors": rejected,
-			"node_errors": errStrings(errs), "deliveries": sc.orderCopy(600)}
-		if delivered {
-			c.Violation("dkg/"+cer.Engine+"/ceremony-failed/"+errClass(errs[failed[0]]),
-				fmt.Sprintf("%s: node %d returned an error although all %d envelopes were delivered (only reordered): %v", cer, failed[0], st.Sent, errs[failed[0]]), w)
-		} else {
-			r.Inconclusive("case %d (%s): node error %v with undelivered envelopes (sent=%d delivered=%d)", c.Idx, cer, errs[failed[0]], st.Sent, st.Delivered)
-		}
-
-		return
-	}
 	cancel()
 	sc.shutdown()
 
@@ -307,6 +391,7 @@ func runFakenetCeremony(c *kit.Case, cer ceremony, reg *keyRegistry, logs *faken
 	r.Count("ceremonies_succeeded_"+cer.Engine, 1)
 	r.Count("envelopes_delivered", st.Delivered)
 	r.Count("delivery_inversions", int64(st.Inversions))
+	r.Count("envelopes_released_by_hold_time_cap", int64(st.AgedOut))
 	r.Count("round_overlap_deliveries", int64(st.RoundOverlap))
 	if !delivered {
 		r.Count("ceremonies_succeeded_with_undelivered_envelopes", 1)
@@ -327,6 +412,54 @@ func runFakenetCeremony(c *kit.Case, cer ceremony, reg *keyRegistry, logs *faken
 	}
 	r.Sample(map[string]any{"ceremony": cer, "schedule": st, "t_subsets_checked": ost.subsetsChecked, "subsets_exhaustive": ost.exhaustive,
 		"group_key_v0": hex.EncodeToString(results[0][0].PubKey[:8]), "first_deliveries": sc.orderCopy(12)})
+}
+
+// droppedByTimeout counts "Dropping <bundle>, context done" error lines of this ceremony's members
+// (the board handlers log the sender's peer id in the "from" field).
+func droppedByTimeout(logs *fakenet.LogCapture, from int, m *members) int {
+	n := 0
+	for _, e := range logs.Since(from) {
+		if !strings.Contains(e.Msg, "Dropping") || !strings.Contains(e.Msg, "context done") {
+			continue
+		}
+		for _, id := range m.ids {
+			if strings.Contains(e.Raw, id.String()) {
+				n++
+
+				break
+			}
+		}
+	}
+
+	return n
+}
+
+// isRealTimeout recognises errors produced by the wall-clock stream timeouts of the real code (and
+// the sibling cancellation forkjoin performs after one of them).
+func isRealTimeout(err error) bool {
+	if err == nil {
+		return false
+	}
+	s := err.Error()
+
+	return strings.Contains(s, "i/o timeout") || strings.Contains(s, "deadline exceeded") || strings.Contains(s, "context canceled")
+}
+
+// quiesce waits (at most d) until every sent envelope was delivered and nothing new was sent
+// between two samples; pacing only.
+func quiesce(sc *sched, d time.Duration) bool {
+	deadline := time.Now().Add(d)
+	for {
+		a := sc.sent.Load()
+		ok := sc.allDelivered()
+		time.Sleep(200 * time.Millisecond)
+		if ok && sc.allDelivered() && sc.sent.Load() == a {
+			return true
+		}
+		if time.Now().After(deadline) {
+			return false
+		}
+	}
 }
 
 func errStrings(errs []error) []string {
@@ -359,6 +492,9 @@ func handlerErrorsOf(logs *fakenet.LogCapture, from int, m *members) []rejected 
 		txt := e.Err
 		if txt == "" {
 			txt = e.Msg
+			if k := strings.Index(txt, ": "); k >= 0 {
+				txt = txt[k+2:] // charon appends the handler's error after the fixed sentence
+			}
 		}
 		out = append(out, rejected{FromNode: i, Msg: kit.Short(e.Msg, 200), Err: kit.Short(txt, 200), Class: errClass(fmt.Errorf("%s", txt))})
 	}
